@@ -468,6 +468,10 @@ func (m *l0Machine) genDocCall(rt *rapid.T, r int, view interface{}) sim.Call {
 	} else if rapid.IntRange(0, 4).Draw(rt, "dhostile") == 0 {
 		keys = keyPoolHostile[:len(keyPoolHostile)-1]
 	}
+	if m.cfg.Invalid && rapid.IntRange(0, 11).Draw(rt, "missingrm") == 0 {
+		// a key from the pool: mostly absent or already deleted (a clean error, no operation)
+		return sim.Call{M: "DeleteInObject", Path: c.path, Key: rapid.SampledFrom(keys).Draw(rt, "missingkey")}
+	}
 	if len(c.keys) > 0 && rapid.IntRange(0, 3).Draw(rt, "objrm") == 0 {
 		return sim.Call{M: "DeleteInObject", Path: c.path, Key: rapid.SampledFrom(c.keys).Draw(rt, "rmkey")}
 	}
